@@ -110,6 +110,9 @@ func (t *Term) String() string {
 // T builds a term.
 func T(op, name string, args ...*Term) *Term { return &Term{Op: op, Name: name, Args: args} }
 
+// N builds a term and puts it into canonical form (children must be canonical).
+func N(op, name string, args ...*Term) *Term { return normalize(&Term{Op: op, Name: name, Args: args}) }
+
 // C is a constant term.
 func C(lit string) *Term { return &Term{Op: OpConst, Name: lit} }
 
@@ -242,6 +245,9 @@ func normalize(t *Term) *Term {
 				hi = normalize(&Term{Op: OpLen, Args: []*Term{x.Args[0]}})
 				if al, ok := arrayLen(x.Args[0]); ok {
 					hi = C(fmt.Sprint(al))
+				}
+				if strings.HasPrefix(x.Name, "arr") {
+					hi = C(strings.TrimPrefix(x.Name, "arr"))
 				}
 			}
 			if lo.Op == OpConst && (lo.Name == "" || lo.Name == "0") {
